@@ -4,7 +4,6 @@ import (
 	"fmt"
 	"go/types"
 	"sort"
-	"strings"
 
 	"golang.org/x/tools/go/ssa"
 
@@ -140,13 +139,12 @@ func init() {
 		Expl: "Decides (E2a/E2b) the non-interference clause for policy: no action writes through attribute storage obtained from a Path getter, and every action is applied to the clone Statement.Apply makes (or to a value passed through from it), never to the caller's route; (E4.policy-types) every condition and action type is complete across its siblings: enum constant ↔ implementation ↔ constructor reachable from NewStatement ↔ case in Statement.ToConfig; (E6.compiled-coherence) editing a community set always rebuilds its compiled matchers, so a set read back through the API and the set that is evaluated stay the same object. Also: (E1b.requires) Policy.Apply / Statement.Apply run with the policy lock held at every call site, so an evaluation sees one configuration. (E4.case-ratchet) against a committed baseline, no switch of the code this property is anchored in has lost a named case. (E6.call-ratchet) against a committed baseline, no function of that code has stopped calling (directly or through helpers) a non-trivial callee it called on the reviewed tree.",
 		Not:  "Condition semantics (prefix containment, regular expressions, comparisons), evaluation order results and equality with an interpreter of the documented model are not decided.",
 		Run: func(c *Ctx) {
+			c.ruleRatchets("C10")
 			c.ruleSharedAttrWrites("E2a.shared-write", []string{"internal/pkg/table"}, 30)
 			c.ruleOwnedPathMutation("E2b.owned-path", 30)
 			c.ruleSiblingCompleteness("E4.policy-conditions", "internal/pkg/table", "Condition", "ConditionType", []string{"internal/pkg/table.NewStatement"}, []string{"(*internal/pkg/table.Statement).ToConfig"}, 30)
 			c.ruleCompiledSetCoherence()
 			c.ruleRequires("E1b.requires", requiresFor(lkPolicy), 2)
-			c.ruleCaseRatchet("E4.case-ratchet", []string{"internal/pkg/table"}, func(f string) bool { return strings.HasSuffix(f, "policy.go") }, "baselines/switches.json", 40)
-			c.ruleCallRatchet("E6.call-ratchet", []string{"internal/pkg/table"}, func(f string) bool { return strings.HasSuffix(f, "policy.go") }, "baselines/calls.json", 100)
 			c.ruleSiblingCompleteness("E4.policy-actions", "internal/pkg/table", "Action", "ActionType", []string{"internal/pkg/table.NewStatement"}, []string{"(*internal/pkg/table.Statement).ToConfig"}, 18)
 		},
 	})
